@@ -87,9 +87,13 @@ func compilerBCE(p *Prog) (*bceInfo, error) {
 // ledger
 
 type ledgerEntry struct {
-	Key      string   `json:"key"`
-	Reason   string   `json:"reason"`
-	Requires []string `json:"requires,omitempty"` // guard facts (symx of conditions, with polarity) that must hold on every path to the instruction
+	Key string `json:"key"`
+	// KeyPattern: optional regular expression; an obligation without an exact entry is matched against the patterns
+	// (the construct descriptor of an obligation depends on how the expression is spelled — buf.String()[1:buf.Len()-1]
+	// or s[1:len(s)-1] — while the reason and its machine-checked facts are about the function)
+	KeyPattern string   `json:"key_pattern,omitempty"`
+	Reason     string   `json:"reason"`
+	Requires   []string `json:"requires,omitempty"` // guard facts (symx of conditions, with polarity) that must hold on every path to the instruction
 	// CallersAny: every call site (within the analysed closure) of the function containing the
 	// obligation must be dominated by a guard fact containing one of these strings
 	CallersAny []string `json:"callers_require_any,omitempty"`
@@ -475,7 +479,20 @@ func (e *e4Engine) open(in ssa.Instruction, key, detail string) {
 		lp = e.ledgerPrefix
 	}
 	full := lp + ": " + key
-	if le, ok := e.ledger[full]; ok {
+	le, ok := e.ledger[full]
+	if !ok {
+		for k, cand := range e.ledger {
+			if cand.KeyPattern == "" {
+				continue
+			}
+			if re, err := regexp.Compile(cand.KeyPattern); err == nil && re.MatchString(full) {
+				le, ok = cand, true
+				e.used[k] = true
+				break
+			}
+		}
+	}
+	if ok {
 		e.used[full] = true
 		// machine-checked facts
 		var missing []string
